@@ -161,6 +161,14 @@ func (g *Gen) havocLoop(l *Loop, head *State, entrySt *State) {
 						allHeaps[heapName(s)] = true
 					}
 				}
+			case *ssa.Next:
+				if rg, ok := in.Iter.(*ssa.Range); ok {
+					if mt, ok := rg.X.Type().Underlying().(*types.Map); ok {
+						ks := g.L.CellSort(mt.Key())
+						g.mapVis(head, ks)
+						rawHeaps[g.visName(ks)] = true
+					}
+				}
 			case *ssa.MapUpdate:
 				mt := in.Map.Type().Underlying().(*types.Map)
 				ks, vs := g.L.CellSort(mt.Key()), g.L.CellSort(mt.Elem())
@@ -170,6 +178,9 @@ func (g *Gen) havocLoop(l *Loop, head *State, entrySt *State) {
 				rawHeaps[g.mapDomName(ks)] = true
 				rawHeaps[g.mapValName(ks, vs)] = true
 				rawHeaps["M_card"] = true
+				if et, ok := deref(mt.Elem()); ok && g.isHeapType(et) {
+					allHeaps[g.heapFor("GOwn")] = true
+				}
 			case ssa.CallInstruction:
 				allocates = true
 				if _, isDefer := in.(*ssa.Defer); isDefer {
@@ -204,6 +215,10 @@ func (g *Gen) havocLoop(l *Loop, head *State, entrySt *State) {
 		head.H[h] = g.freshConst(h, g.heaps[h])
 	}
 	for _, r := range regions {
+		if r.Map {
+			g.havocRegion(head, r)
+			continue
+		}
 		// skip sorts that are havocked entirely
 		var sorts []string
 		cand := r.Sorts
